@@ -125,7 +125,9 @@ class C03(PropertyCheck):
         c["cost_type"] = rng.choice(["float", "float", "int"])
         c["warn"] = rng.random() < 0.5
         c["layout"] = [rng.choice(cc.LAYOUTS), rng.choice(cc.LAYOUTS)]
-        toks = [t for col in c["hyps"] for t in col]
+        # a narrower hypothesis tensor only when every token AND the eos are values of that dtype
+        # (torch wraps an out-of-range eos scalar: eos = -2**35 "equals" token 0 of a uint8 tensor)
+        toks = [t for col in c["hyps"] for t in col] + ([c["eos"]] if c["eos"] is not None else [])
         dt = rng.choice(["int64", "int64", "int32", "int16", "int8", "uint8"])
         c["tok_dtype"] = ["int64", dt if cc.fits(toks, dt) else "int64"]
         return c
@@ -250,7 +252,7 @@ class C03(PropertyCheck):
         # reference tensors that are not long (the documentation asks for long tensors) ----
         for i in range(24 * scale):
             c = self._random_targets(rng, i, 4, cells, next_costs())
-            toks = [t for col in c["refs"] + c["hyps"] for t in col]
+            toks = [t for col in c["refs"] + c["hyps"] for t in col] + ([c["eos"]] if c["eos"] is not None else [])
             dt = rng.choice(["int32", "int16", "int8", "uint8"])
             if not cc.fits(toks, dt):
                 dt = "int32" if cc.fits(toks, "int32") else "int64"
@@ -328,12 +330,13 @@ class C03(PropertyCheck):
             c["cost_type"] = rng.choice(["float", "float", "int"])
             c["warn"] = rng.random() < 0.5
             c["layout"] = [rng.choice(cc.LAYOUTS), rng.choice(cc.LAYOUTS)]
-            toks = [t for col in hyps for t in col]
+            toks = [t for col in hyps for t in col] + ([eos] if eos is not None else [])
             dt = rng.choice(["int64", "int64", "int32", "int16", "uint8"])
             c["tok_dtype"] = ["int64", dt if cc.fits(toks, dt) else "int64"]
             c["logits_dtype"] = rng.choice(["float32", "float32", "float64"])
             c["logit_layout"] = rng.choice(cc.LOGIT_LAYOUTS)
             c["logit_class"] = rng.choice(cc.LOGIT_CLASSES)
+            c["grad"] = rng.random() < 0.5
             if c["logit_class"] == "neg_inf_offtarget":
                 dead = [v for v in range(V) if v not in used]
                 if dead:
@@ -418,22 +421,24 @@ class C03(PropertyCheck):
             values = self._values(case, "loss")
             values.update(weight=weight, ignore_index=case["ignore_index"])
             res = {"dtype": {}}
-            for red in ("none", "sum", "mean"):
+
+            def call(lg, red):
                 values["reduction"] = red
                 if case["entry"] == "module":
                     warn = values["warn"]
                     pos, kw = cc.split_args(values, cc.ORDER["loss_module"], cc.DOC_DEFAULTS["loss_module"], style)
                     mod = M.HardOptimalCompletionDistillationLoss(*pos, **kw)
                     if style == "positional":
-                        v = mod(logits, ref, hyp, warn)
-                    elif style == "keyword" or not warn:
-                        v = mod(logits, ref, hyp, warn=warn)
-                    else:
-                        v = mod(logits, ref, hyp)
-                else:
-                    pos, kw = cc.split_args(values, cc.ORDER["loss_functional"],
-                                            cc.DOC_DEFAULTS["loss_functional"], style)
-                    v = F.hard_optimal_completion_distillation_loss(logits, ref, hyp, *pos, **kw)
+                        return mod(lg, ref, hyp, warn)
+                    if style == "keyword" or not warn:
+                        return mod(lg, ref, hyp, warn=warn)
+                    return mod(lg, ref, hyp)
+                pos, kw = cc.split_args(values, cc.ORDER["loss_functional"], cc.DOC_DEFAULTS["loss_functional"],
+                                        style)
+                return F.hard_optimal_completion_distillation_loss(lg, ref, hyp, *pos, **kw)
+
+            for red in ("none", "sum", "mean"):
+                v = call(logits, red)
                 res["dtype"][red] = str(v.dtype)
                 if red == "none":
                     res["none_shape"] = list(v.shape)
@@ -441,6 +446,21 @@ class C03(PropertyCheck):
                 else:
                     res[red + "_shape"] = list(v.shape)
                     res[red] = frac_str(v.item()) if v.dim() == 0 else "not-a-scalar"
+            if case.get("grad"):
+                # the loss as a differentiable function of the logits: d(sum)/d(logits), leaf with the
+                # same strides as the tensor handed over
+                lg = logits.detach().requires_grad_(True)
+                v = call(lg, "sum")
+                g = None
+                if v.requires_grad:
+                    v.backward()
+                    g = lg.grad
+                if g is None:
+                    res["grad"] = None
+                else:
+                    if case["batch_first"]:
+                        g = g.transpose(0, 1)
+                    res["grad"] = [[[frac_str(x) for x in vec] for vec in mat] for mat in g.tolist()]
             res["inputs_untouched"] = bool(all(torch.equal(b, k) for b, k in zip(bases, keep))
                                            and torch.equal(lbase, lkeep))
             return res
@@ -481,19 +501,38 @@ class C03(PropertyCheck):
         return {"returned": True}
 
     # ------------------------------------------------------------------ model
+    @staticmethod
+    def _native2(cols, L, bf):
+        """The logical token tensor of the call: (N, L) under batch_first, else (L, N); row-major."""
+        N = len(cols)
+        if bf:
+            return {"shape": [N, L], "data": [t for col in cols for t in col]}
+        return {"shape": [L, N], "data": [cols[n][i] for i in range(L) for n in range(N)]}
+
     def model_request(self, case):
         if case["kind"] in ("malformed", "excluded", "zero_batch"):
             return None
+        N, R, H = self._dims(case)
+        bf = case["batch_first"]
         base = {"eos": case["eos"], "include_eos": case["include_eos"], "ins": case["ins"],
-                "del": case["del"], "sub": case["sub"], "refs": case["refs"], "hyps": case["hyps"]}
+                "del": case["del"], "sub": case["sub"], "batch_first": bf,
+                "ref": self._native2(case["refs"], R, bf), "hyp": self._native2(case["hyps"], H, bf)}
         if case["kind"] == "targets":
             base.update(exclude_last=case["exclude_last"], padding=case["padding"])
+            st = getattr(self, "_stash", None)
+            if st is not None and st[0] == id(case) and len(st[1]["shape"]) == 3:
+                # the implementation's own output tensor, judged by the Lean rowCheck / rowAgree
+                flat = [x for a in st[1]["out"] for b in a for x in b]
+                base["impl"] = {"shape": st[1]["shape"], "data": flat}
             return {"op": "c03.targets", "case": base}
-        lsm = [[cc.lsm_oracle(vec) for vec in mat] for mat in cc.logit_values(case)]
+        lsm = [[cc.lsm_oracle(vec) for vec in mat] for mat in cc.logit_values(case)]  # [k][n][v]
+        if bf:
+            lsm = [[lsm[k][n] for k in range(H)] for n in range(N)]
+        flat = [frac_str(x) if x != float("-inf") else str(cc.NEG_INF_SENTINEL)
+                for mat in lsm for vec in mat for x in vec]
         base.update(exclude_last=True, padding=case["ignore_index"], ignore_index=case["ignore_index"],
                     weight=case["weight"],
-                    lsm=[[[frac_str(x) if x != float("-inf") else str(cc.NEG_INF_SENTINEL) for x in vec]
-                          for vec in mat] for mat in lsm])
+                    lsm={"shape": ([N, H] if bf else [H, N]) + [case["V"]], "data": flat})
         return {"op": "c03.loss", "case": base}
 
     # ------------------------------------------------------------------ helpers
@@ -539,6 +578,8 @@ class C03(PropertyCheck):
     # ------------------------------------------------------------------ correspondence
     def compare(self, case, impl, model):
         if case["kind"] == "targets":
+            if "error" in model:
+                raise AssertionError(f"the model refuses an in-domain batch: {model['error']}")
             self._check_model_vs_oracle(case, model)
             if "error" in impl:
                 if self._not_long(case):
@@ -546,18 +587,29 @@ class C03(PropertyCheck):
                 return [f"implementation raised {impl['error']}: {impl.get('message')}"]
             N = len(case["refs"])
             out = []
-            rows = self._rows_kn(case, impl["out"], model["Hp"], N)
+            rows = self._rows_kn(case, impl["out"], model["Hp"], N) if len(impl["shape"]) == 3 else None
+            verdict = model.get("verdict")
+            if verdict is not None and verdict["shape_ok"] != (rows is not None):
+                raise AssertionError(f"Lean and python disagree on the output shape {impl['shape']}")
             if rows is None:
-                return [f"shape impl={impl['shape']} model prefixes={model['Hp']} batch={N} width={model['C']} "
+                return [f"shape impl={impl['shape']} model={model['out']['shape']} "
                         f"batch_first={case['batch_first']}"]
+            differ = set()
             for k in range(model["Hp"]):
                 for n in range(N):
                     a, _ = self._strip(rows[k][n], case["padding"])
                     b, _ = self._strip(model["rows"][k][n], case["padding"])
                     if sorted(a) != sorted(b):
+                        differ.add((k, n))
                         out.append(f"prefix {k} column {n}: impl {a} model {b}")
+            if verdict is not None:
+                lean = {(b["k"], b["n"]) for b in verdict["bad"] if not b["agree"]}
+                if lean != differ:
+                    raise AssertionError(f"Lean rowAgree {sorted(lean)} != python comparison {sorted(differ)}")
             return out[:5]
         if case["kind"] == "loss":
+            if "error" in model:
+                raise AssertionError(f"the model refuses an in-domain batch: {model['error']}")
             if "error" in impl:
                 return [f"implementation raised {impl['error']}: {impl.get('message')}"]
             mat = self._loss_matrix(case, impl)
@@ -652,11 +704,15 @@ class C03(PropertyCheck):
             if rows is None or len(impl["shape"]) != 3:
                 want = f"({N}, {Hp}, *)" if case["batch_first"] else f"({Hp}, {N}, *)"
                 return fails + [(f"output has shape {impl['shape']}, expected {want}", "C03.targets.shape")]
+            bad = set()
             for n in range(N):
                 nv = self._valid_count(case, model["hyp_lens"][n])
                 for k in range(Hp):
                     row = rows[k][n]
                     got, ok = self._strip(row, pad)
+                    if not ok or len(set(got)) != len(got) or (set(got) != set(model["oracle"][n][k]) if k < nv
+                                                               else bool(got)):
+                        bad.add((k, n))
                     if not ok:
                         fails.append((f"column {n} prefix {k}: padding inside the list {row}",
                                       "C03.targets.padding_inside"))
@@ -674,6 +730,12 @@ class C03(PropertyCheck):
                         fails.append((f"column {n} prefix {k}: listed {sorted(set(got))} but the tokens that keep "
                                       f"the best reachable distance are {sorted(want)}",
                                       "C03.targets.set_mismatch"))
+            verdict = model.get("verdict")
+            if verdict is not None:
+                # the authority: Lean's rowCheck (C03_check_sound_complete); python only words the message
+                lean = {(b["k"], b["n"]) for b in verdict.get("bad", []) if not b["check"]}
+                if lean != bad:
+                    raise AssertionError(f"Lean rowCheck {sorted(lean)} != python predicate {sorted(bad)}")
             return fails[:6]
         # loss: spec value from the oracle sets, reductions recomputed here in exact arithmetic
         ldt = "torch." + case.get("logits_dtype", "float32")
@@ -694,10 +756,42 @@ class C03(PropertyCheck):
                            and k < model["hyp_lens"][n])
             per.append(sum((cells[k][n] for k in range(H)), Fraction(0)) / max(nonempty, 1))
         ref["mean"] = frac_str(sum(per, Fraction(0)) / N)
+        if (parse_frac(model["spec_sum"]), parse_frac(model["spec_mean"])) != (
+                parse_frac(ref["sum"]), parse_frac(ref["mean"])):
+            raise AssertionError(f"Lean lossSumSpec/lossMeanSpec {model['spec_sum']}, {model['spec_mean']} != "
+                                 f"python recomputation {ref['sum']}, {ref['mean']}")
         for d in self._loss_diff(case, dict(impl, none=mat), ref, "spec"):
             fails.append((f"loss differs from the average negative log-probability of the target set: {d}",
                           "C03.loss.value"))
+        if case.get("grad"):
+            fails += self._grad_fails(case, impl, model)
         return fails[:4]
+
+    def _grad_fails(self, case, impl, model):
+        """d(sum of the cells)/d(logits[k][n][v]) = (1/|S|) sum_{s in S} w_s (softmax_v - [v = s])."""
+        import math
+        if impl.get("grad") is None:
+            return [("the summed loss does not depend on the logits (no gradient reaches them)",
+                     "C03.loss.gradient")]
+        N, _, H = self._dims(case)
+        V = case["V"]
+        w = [float(Fraction(x)) for x in case["weight"]] if case["weight"] is not None else [1.0] * V
+        vals = cc.logit_values(case)
+        tol = TOL[case.get("logits_dtype", "float32")] * max(1.0, max(w))
+        out = []
+        for k in range(H):
+            for n in range(N):
+                S = model["oracle"][n][k] if k < model["hyp_lens"][n] else []
+                p = [math.exp(x) if x != float("-inf") else 0.0 for x in cc.lsm_oracle(vals[k][n])]
+                for v in range(V):
+                    want = sum(w[s] * (p[v] - (1.0 if v == s else 0.0)) for s in S) / len(S) if S else 0.0
+                    got = self._num(impl["grad"][k][n][v])
+                    if not (abs(got - want) <= tol):
+                        out.append((f"gradient of the summed loss at logits[{k}][{n}][{v}]: impl {got!r}, "
+                                    f"from the target set {want!r}", "C03.loss.gradient"))
+                        if len(out) >= 2:
+                            return out
+        return out
 
     # ------------------------------------------------------------------ evidence
     def _cuts(self, case):
@@ -771,6 +865,8 @@ class C03(PropertyCheck):
             t.append(f"logits_dtype={case.get('logits_dtype', 'float32')}")
             t.append(f"logit_layout={case.get('logit_layout', 'contig')}")
             t.append(f"logit_class={case.get('logit_class', 'normal')}")
+            if case.get("grad"):
+                t.append("gradient_checked")
             ii = case["ignore_index"]
             t.append("ignore_index=" + (str(ii) if ii < 0 else "at_V" if ii == case["V"] else "above_V"))
             if any(len(r) == 0 for r, _ in cuts):
@@ -782,7 +878,7 @@ class C03(PropertyCheck):
             return
         # first: hand the batch over in the plainest way
         for opt in ("layout", "tok_dtype", "call", "cost_type", "warn", "logit_layout", "logits_dtype",
-                    "logit_class"):
+                    "logit_class", "grad"):
             if opt in case:
                 c = dict(case)
                 del c[opt]
